@@ -24,6 +24,7 @@ fn type_index(id: TypeId) -> u64 {
 
 macro_rules! builder_probe {
     ($b:expr, $sizes:expr, $out:expr, $obs:expr) => {{
+        let mut spans: Vec<(usize, usize, u64)> = Vec::new();
         for t in 0..NTYPES as u64 {
             with_comp!(t, C, {
                 let has = $b.has::<C>();
@@ -32,9 +33,21 @@ macro_rules! builder_probe {
                     Some(c) => {
                         $obs.push(1);
                         $obs.push(if $sizes[t as usize] == 0 { 0 } else { c.val() });
-                        let addr = c as *const C as usize;
+                        let addr = std::hint::black_box(c as *const C as usize);
                         if addr % std::mem::align_of::<C>() != 0 {
                             $out.flag(format!("C04: builder handed out a misaligned reference to type {t}: {addr:#x}"));
+                        }
+                        let size = std::mem::size_of::<C>();
+                        if size > 0 {
+                            if crate::alloc_track::block_of(addr, size).is_none() {
+                                $out.flag(format!("C04: builder reference to type {t} does not lie inside one live allocation"));
+                            }
+                            for (a2, s2, t2) in &spans {
+                                if addr < a2 + s2 && *a2 < addr + size {
+                                    $out.flag(format!("C04: builder components of types {t2} and {t} overlap in the arena"));
+                                }
+                            }
+                            spans.push((addr, size, t));
                         }
                         if !has {
                             $out.flag(format!("C13: builder get::<{t}> succeeds but has::<{t}> is false"));
